@@ -130,8 +130,14 @@ class VartypeView:
             self.data.add_linear(v, -2*bias)
             self.data.offset += bias
 
+    def _check_bias(self, bias):
+        # a bias that is not a real number must raise before any variable is added
+        if self.data.dtype != object:
+            float(bias / 2)
+
     def add_variable(self, v: Optional[Variable] = None,
                      bias: Bias = 0) -> Variable:
+        self._check_bias(bias)
         v = self.data.add_variable(v)
         self.add_linear(v, bias)
         return v
@@ -265,6 +271,7 @@ class VartypeView:
     @view_method
     def set_linear(self, v: Variable, bias: Bias):
         # a bias that is not a number must raise before `v` is added
+        self._check_bias(bias)
         delta = bias - (self.get_linear(v) if v in self.variables else 0)
         self.add_linear(v, 0)  # make sure it exists
         self.add_linear(v, delta)  # just add the delta
@@ -275,6 +282,7 @@ class VartypeView:
         if u is None or v is None:
             raise ValueError("unknown variable None")
         hash(v), v in self.variables  # an unusable label or bias must raise before anything is added
+        self._check_bias(bias)
         try:
             delta = bias - self.get_quadratic(u, v)
         except ValueError:
